@@ -137,4 +137,3 @@ func Verif_C01_init_lemma() { vfInitLemma() }
 //verif:split 8
 //verif:concretize 6
 func Verif_C03_init_lemma() { vfInitLemma() }
-
